@@ -742,6 +742,16 @@ func engineMultiplex(rng *rand.Rand, n int, tier string, o *Out) {
 		}
 		o.Oracle("mux-gap", fmt.Sprintf("g%d", c), true, fmt.Sprint(chunk, c), v)
 	}
+	for c := 0; c < n/8+3; c++ {
+		v, key := slowDestScenario(rng)
+		if strings.HasPrefix(v, "harness:") {
+			fmt.Fprintln(os.Stderr, "mux-slowdest:", v)
+			o.Hist("mux-slowdest:harness-problem")
+			v = ""
+		}
+		o.Hist("mux-slowdest:" + key)
+		o.Oracle("mux-slowdest", fmt.Sprintf("s%d", c), true, fmt.Sprint(c, key), v)
+	}
 	for c := 0; c < 4; c++ {
 		v := dupIDScenario(rng, c%2 == 1)
 		o.Hist(fmt.Sprintf("mux-dupid:reuse-after-done=%v", c%2 == 1))
